@@ -175,10 +175,12 @@ JPrintPlain(A, origin, e) ==
     \* through serde_json::Value, through a reader, from JSON text with an escape: the same range as from_str
     \cup Chk(e.jok => \A k \in Idx(e.jroutes) : e.jroutes[k].out = "ok" /\ e.jroutes[k].val = e.jval, "C13:json-other-routes")
 JPrint(A, origin, e) ==
-  \* the `*` shape (both sides unbounded) only comes from Range::any(), outside the quantifier of C13
+  \* the `*` shape (both sides unbounded) only comes from Range::any() and from operations on it, outside the
+  \* quantifier of C13; a range that Range::parse returned is judged whatever its shape (`*` prints as `*`, which
+  \* parses to `>=0.0.0`: were parse to return the `*` shape, the round trip would not compare equal)
   \* beyond the listed properties: the exact Display text (pinned by the crate's ~70 parse tests)
   Chk(e.text = PrintRange(A), "X:display-format") \cup
-  IF HasAnyShape(A) THEN {}
+  IF HasAnyShape(A) /\ origin # "parse" THEN {}
   ELSE LET plain == JPrintPlain(A, origin, e) IN
        IF plain = {} THEN {}
        ELSE IF ~HasOver(A) THEN plain \cup (IF origin = "op" THEN {"C15:result-not-reusable"} ELSE {})
@@ -274,6 +276,9 @@ JTiming(e) ==
   \cup Chk(\A i \in Idx(e.n) : \A j \in Idx(e.n) :
              (e.n[j] >= 4 * e.n[i]) => e.us[j] <= 4 * (e.n[j] \div e.n[i]) * e.us[i] + 20000, "C06:superlinear")
 JSoup(e) == Chk(e.us <= 2000000 + 2000 * e.len, "C06:time-budget")
+\* every operation between a range with tens of thousands of alternatives and a small one returned (a panic is its own
+\* event, an abort or a hang ends the trace) within 100 ms + 50 us per alternative
+JDeep(e) == Chk(\A i \in Idx(e.ops) : e.ops[i].us <= 100000 + 50 * e.alts, "C06:time-budget-set-operations")
 
 \* ------------------------------------------------------------------ register file
 RegStep(rr, e) ==
@@ -321,6 +326,7 @@ Judge(rr, org, e) ==
     [] e.ev = "concat" -> JConcat(e)
     [] e.ev = "soup"   -> JSoup(e)
     [] e.ev = "timing" -> JTiming(e)
+    [] e.ev = "deepops" -> JDeep(e)
     [] e.ev = "ident"  -> JIdent(rr[e.l], rr[e.r], e)
     [] e.ev = "vparse" -> JVParse(e)
     [] e.ev = "vbuilt" -> JVBuilt(e)
